@@ -12,7 +12,10 @@ _G = {}
 
 
 def _fp_worker(args):
-    repo, fname, fn = args
+    repo, fname, fn = args[:3]
+    kbname = args[3] if len(args) > 3 else "kb_blas"
+    import importlib
+    kbmod = importlib.import_module("sa." + kbname)
     c = _G.get((repo, fname))
     if c is None:
         c = cf.load_c(repo, files=[fname])[fname]
@@ -20,6 +23,7 @@ def _fp_worker(args):
     ext = set(c.externs)
     sim = cm.Simulator(c, fn)
     g = cg.global_sign_facts(sim)
+    allocs = cg.local_allocations(sim)
     seen = {}
     ncase = 0
     nsite = 0
@@ -28,7 +32,7 @@ def _fp_worker(args):
         sites, end = sim.run(case, ext)
         for s in sites:
             nsite += 1
-            for st, what, detail, exp, obs in cg.check_site(s, sim, g):
+            for st, what, detail, exp, obs in cg.check_site(s, sim, g, kbmod, allocs):
                 fl = " ".join("%s=%s" % kv for kv in sorted(case.flags.items()))
                 key = (st, what, fl if st == "ok" else "")
                 if key not in seen:
@@ -36,10 +40,10 @@ def _fp_worker(args):
     return fn, ncase, nsite, [(k, v) for k, v in seen.items()], sim.parse_errors[:3]
 
 
-def footprint_rule(rule_cover, rule_exact, repo, fname, wrappers, jobs=8):
+def footprint_rule(rule_cover, rule_exact, repo, fname, wrappers, jobs=8, kbname="kb_blas"):
     """rule_cover: guard >= footprint (C19); rule_exact: guard == footprint (C17).
     Either may be None."""
-    work = [(repo, fname, fn) for fn in wrappers]
+    work = [(repo, fname, fn, kbname) for fn in wrappers]
     with ProcessPoolExecutor(max_workers=jobs) as ex:
         results = list(ex.map(_fp_worker, work))
     stats = {"cases": 0, "call_sites": 0}
